@@ -24,6 +24,9 @@ Over2 == S(<<E(<<CP(1, 1, 1), T(2, 1, Eternal), T(3, 1, 2)>>, 2), E(<<T(4, 2, 1)
 \* over-committed parallel WITHOUT completed-by: a client runs two tasks of the element one after the other (new Sampler, new executor)
 OverPlain1 == S(<<E(<<T(1, 1, 2), T(2, 1, 2)>>, 1), E(<<T(3, 1, 1)>>, 0)>>, <<>>, 1)
 OverPlain2 == S(<<E(<<T(1, 1, 1), T(2, 1, 2), T(3, 1, 1)>>, 2)>>, <<>>, 2)
+\* time-period based tasks (end when the period is over, after some request); alone and next to a completed-by task
+Timed2 == S(<<E(<<T(1, 2, Timed)>>, 0), E(<<T(2, 1, 1)>>, 0)>>, <<>>, 2)
+NamedTimed == S(<<E(<<CP(1, 1, 2), T(2, 1, Timed)>>, 0), E(<<T(3, 2, 1)>>, 0)>>, <<>>, 2)
 \* 3 clients on 2 workers, named task with 2 clients on the same worker as ... and an eternal task elsewhere
 Three == S(<<E(<<CP(1, 2, 2), T(2, 1, Eternal)>>, 0), E(<<T(3, 3, 1)>>, 0)>>, <<1, 1, 2>>, 2)
 ThreeB == S(<<E(<<T(2, 1, Eternal), CP(1, 2, 1)>>, 0), E(<<T(3, 3, 1)>>, 0)>>, <<1, 1, 2>>, 2)
@@ -38,12 +41,12 @@ FixedFaults == {"req", "param", "store", "die", "cancel"}
 RcStoreFault == {"rcstore"}
 StoreFault == {"store"}
 AllFaults == {"req", "param", "store", "rcstore", "die", "cancel"}
-QuickScenarios == {Seq2, Named2, Named1, Any2, Over1, Over2, Three, CapBig, OverPlain1, OverPlain2}
+QuickScenarios == {Seq2, Named2, Named1, Any2, Over1, Over2, Three, CapBig, OverPlain1, OverPlain2, Timed2, NamedTimed}
 C01QuickScenarios == {Seq2, Named2, Any2, Over1, Over2}
 LiveScenarios == {Named2, Any2, Over1, Over2}
 Tiny2 == S(<<E(<<T(1, 2, 1)>>, 0)>>, <<>>, 2)
 LiveFaultScenarios == {Tiny2}
-FaultSimScenarios == {Seq2, Named2, Tiny2, Over2, Three, OverPlain1, OverPlain2}
+FaultSimScenarios == {Seq2, Named2, Tiny2, Over2, Three, OverPlain1, OverPlain2, Timed2}
 FaultScenarios == {Seq2, Named2, OverPlain1}
 C07Scenarios == {Seq2, Named2, Over2, OverPlain1}
 ThoroughScenarios == QuickScenarios \cup {ThreeB, W3, W3Any}
